@@ -105,7 +105,7 @@ fn with_limit(p: &[&str], f: fn(&[&str]) -> String) -> String {
         let r = std::panic::catch_unwind(|| f(&refs)).unwrap_or_else(|_| "panic".to_string());
         let _ = tx.send(r);
     });
-    match rx.recv_timeout(std::time::Duration::from_secs(3)) {
+    match rx.recv_timeout(std::time::Duration::from_secs(10)) {
         Ok(r) => r,
         Err(_) => {
             STUCK.fetch_add(1, Ordering::SeqCst);
